@@ -105,6 +105,34 @@ func (g *ctxGen) newProp(code byte, raw []byte) propInfo {
 	return propInfo{mid: mid, raw: raw, comp: comp, code: code, csize: len(comp)}
 }
 
+// rawProp writes an arbitrary proposal-like line and accounts for it in the block checksum, so that a following
+// EndBlock is correct and the station goes on to answer it.
+func (g *ctxGen) rawProp(l string) {
+	for _, c := range []byte(l) {
+		g.sum += int(c)
+	}
+	g.sum += '\r'
+	g.line(l)
+	g.props = append(g.props, g.newProp('C', nil))
+}
+
+// libOutSizes returns the compressed and uncompressed size of the first outbound message of the station under test
+// (the hostile runner queues fixed messages, see runTranscript).
+func libOutSizes() (csize, size int) {
+	m := BuildMessage(MsgSpec{MID: "LIBOUT000000", Prec: 3, Size: "small"}, calls["A"], calls["B"], 7)
+	// the smaller of the two queued messages is proposed first; both are of class "small": use their minimum
+	best := [2]int{1 << 30, 0}
+	for i := 0; i < 2; i++ {
+		m = BuildMessage(MsgSpec{MID: fmt.Sprintf("LIBOUT%06d", i), Prec: 3, Size: "small"}, calls["A"], calls["B"], 7)
+		raw, _ := m.Bytes()
+		c := len(compress(raw))
+		if c < best[0] {
+			best = [2]int{c, len(raw)}
+		}
+	}
+	return best[0], best[1]
+}
+
 func (g *ctxGen) propLine(p propInfo) {
 	l := fmt.Sprintf("F%c EM %s %d %d 0", p.code, p.mid, len(p.raw), p.csize)
 	for _, c := range []byte(l) {
@@ -283,6 +311,20 @@ func (g *ctxGen) token(tok string) {
 		g.line(fmt.Sprintf("F> %02X", (-g.sum+1)&0xff))
 	case "EndBlockNoProps":
 		g.line("F> 00")
+	case "BlankFlood":
+		g.buf.Write(bytes.Repeat([]byte{'\r'}, 6000000))
+	case "PropHugeCsize":
+		// a well-formed proposal declaring an enormous compressed size; the block can still be closed correctly
+		g.rawProp("FC EM HUGECS" + fmt.Sprint(rng.Intn(1000000)) + " 100 " + []string{"268435456", "4611686018427387904", "2147483647"}[rng.Intn(3)] + " 0")
+	case "PropNegCsize":
+		g.rawProp("FC EM NEGCS" + fmt.Sprint(rng.Intn(1000000)) + " 100 -1 0")
+	case "FsOffsetMid":
+		// an offset between the compressed and the uncompressed size of the station's first outbound message
+		cs, sz := libOutSizes()
+		g.line(fmt.Sprintf("FS !%d", cs+(sz-cs)/2))
+	case "FsOffsetAtEnd":
+		cs, _ := libOutSizes()
+		g.line(fmt.Sprintf("FS !%d", cs+rng.Intn(2)))
 	case "PropNoFields":
 		g.line("FC")
 	case "PropFewFields":
